@@ -20,6 +20,10 @@ enum Atom
 	IfGoto(&'static str),
 	/// `if v == 0 goto l;` — a use inside a condition
 	CondGoto(&'static str, &'static str),
+	/// `var v: i32 = v + 1;` — the initialiser is analysed before the variable exists
+	DeclSelf(&'static str),
+	/// `sink(0);`
+	Nop,
 }
 
 fn atoms_small() -> Vec<Atom>
@@ -60,6 +64,8 @@ fn atoms_large() -> Vec<Atom>
 	}
 	v.push(Atom::CondGoto("v", "a"));
 	v.push(Atom::CondGoto("w", "b"));
+	v.push(Atom::DeclSelf("v"));
+	v.push(Atom::DeclSelf("z"));
 	v.push(Atom::Goto("return"));
 	v.push(Atom::IfGoto("return"));
 	v
@@ -76,6 +82,8 @@ fn atom_text(a: &Atom) -> String
 		Atom::Goto(l) => format!("goto {};", l),
 		Atom::IfGoto(l) => format!("if p == 0 goto {};", l),
 		Atom::CondGoto(n, l) => format!("if {} == 0 goto {};", n, l),
+		Atom::DeclSelf(n) => format!("var {}: i32 = {} + 1;", n, n),
+		Atom::Nop => "sink(0);".to_string(),
 	}
 }
 
@@ -273,8 +281,29 @@ impl<'a> Model<'a>
 			{
 				Node::Atom(k) => match &self.atoms[*k]
 				{
-					Atom::Decl(name) =>
+					Atom::Decl(name) | Atom::DeclSelf(name) =>
 					{
+						if let Atom::DeclSelf(_) = &self.atoms[*k]
+						{
+							// the initialiser reads the name before it is declared;
+							// if the name is visible the statement is a duplicate
+							// declaration and reported as that alone
+							match self.lookup(name)
+							{
+								None => self.use_name(name),
+								Some(id) =>
+								{
+									// The read in the initialiser is analysed
+									// first; if it is a skipped variable the
+									// compiler notes E482 once for that variable,
+									// but the statement is then replaced by the
+									// duplicate-declaration error: that E482 is
+									// lost and later uses stay silent. The
+									// program is rejected either way (E422).
+									self.dubious.remove(&id);
+								}
+							}
+						}
 						if self.lookup(name).is_some()
 						{
 							self.v.duplicate = true;
@@ -400,8 +429,10 @@ fn flatten(body: &[Node], atoms: &[Atom], has_return: bool) -> Linear
 				{
 					Node::Atom(k) => match self.atoms[*k].clone()
 					{
-						Atom::Decl(n) =>
+						Atom::Decl(n) | Atom::DeclSelf(n) =>
 						{
+							// (a body with DeclSelf is never accepted: either the
+							// name is unknown or it is a duplicate)
 							self.emit(Op::Decl(n), depth);
 						}
 						Atom::Use(n) =>
@@ -411,6 +442,10 @@ fn flatten(body: &[Node], atoms: &[Atom], has_return: bool) -> Linear
 						Atom::Bump(n) =>
 						{
 							self.emit(Op::Bump(n), depth);
+						}
+						Atom::Nop =>
+						{
+							self.emit(Op::Nop, depth);
 						}
 						Atom::Label(l) =>
 						{
@@ -862,7 +897,20 @@ impl Stream for Exhaustive
 /// rename or neutralise clashing labels
 fn repair_labels(seq: &mut Vec<Node>, atoms: &[Atom], outer: &[&'static str], tail: &[&'static str])
 {
-	let find = |a: Atom| atoms.iter().position(|x| *x == a).unwrap();
+	// (the filler `sink(p);` becomes `sink(0);` where there is no parameter; a
+	// goto form that the atom list lacks becomes the other form)
+	let find = |a: Atom| {
+		atoms
+			.iter()
+			.position(|x| *x == a)
+			.or_else(|| match &a
+			{
+				Atom::IfGoto(l) => atoms.iter().position(|x| *x == Atom::Goto(l)),
+				_ => None,
+			})
+			.or_else(|| atoms.iter().position(|x| *x == Atom::Nop))
+			.unwrap()
+	};
 	let mut later: Vec<&'static str> = tail.to_vec();
 	for i in (0..seq.len()).rev()
 	{
@@ -1009,6 +1057,123 @@ impl Stream for RandomBodies
 	}
 }
 
+/// Bodies of a function WITHOUT parameters in a module WITHOUT constants: at
+/// the first statements nothing at all is in scope (the scope bookkeeping at a
+/// goto must not depend on something being declared before it).
+struct BareFunctions;
+fn atoms_bare() -> Vec<Atom>
+{
+	let mut v = Vec::new();
+	for n in ["v", "w"]
+	{
+		v.push(Atom::Decl(n));
+		v.push(Atom::Use(n));
+		v.push(Atom::Bump(n));
+	}
+	for l in ["a", "b"]
+	{
+		v.push(Atom::Label(l));
+		v.push(Atom::Goto(l));
+		v.push(Atom::Goto(l));
+	}
+	v.push(Atom::CondGoto("v", "a"));
+	v.push(Atom::CondGoto("w", "b"));
+	v.push(Atom::Nop);
+	v
+}
+impl Stream for BareFunctions
+{
+	fn name(&self) -> String
+	{
+		"bare-functions".into()
+	}
+	fn count(&self, tier: Tier) -> u64
+	{
+		tier.pick(60_000, 600_000)
+	}
+	fn choice_len(&self) -> usize
+	{
+		120
+	}
+	fn stride(&self) -> u64
+	{
+		64
+	}
+	fn run(&self, _idx: u64, c: &mut Choices, ctx: &RunCtx) -> CaseOut
+	{
+		let mut out = CaseOut::default();
+		let atoms = atoms_bare();
+		let g = Grammar {
+			atoms: atoms.len(),
+			naked_branches: false,
+		};
+		let mut budget = 14;
+		let mut body = treegen::random_seq(c, g, &mut budget, 3, 8);
+		repair_labels(&mut body, &atoms, &[], &[]);
+		if !labels_ok(&body, &atoms, &[], &[])
+		{
+			out.discarded = Some("label structure invalid (that is C04's subject)".into());
+			return out;
+		}
+		let mut m = Model {
+			atoms: &atoms,
+			scopes: Vec::new(),
+			next_binding: 0,
+			dubious: BTreeSet::new(),
+			v: Verdict::default(),
+			ret_use: None,
+		};
+		m.walk(&body, None);
+		let v = m.v;
+		let mut expected: BTreeSet<u16> = BTreeSet::new();
+		if v.undefined
+		{
+			expected.insert(402);
+		}
+		if v.duplicate
+		{
+			expected.insert(422);
+		}
+		if v.skipped
+		{
+			expected.insert(482);
+		}
+		let mut src = String::from("fn sink(x: i32)\n{\n\tprint!(x, \"\\n\");\n}\n\nfn f()\n{\n");
+		let at = |k: usize| atom_text(&atoms[k]);
+		let mut body_text = String::new();
+		treegen::print_seq(&body, 1, &at, &mut body_text);
+		// there is no parameter: conditions compare literals
+		src.push_str(&body_text.replace("if p == 0", "if 0i32 == 0"));
+		src.push_str("}\n\nfn main() -> i32\n{\n\tf();\n\treturn: 0\n}\n");
+		out.key = fnv(&src);
+		out.nontrivial = v.nontrivial || v.skipped;
+		let o = alpha::analyze_one(&src);
+		let scoping: BTreeSet<u16> = o.codes.iter().copied().filter(|c| [402, 422, 424, 482].contains(c)).collect();
+		let detail = json!({"source": src, "expected_codes": expected, "actual": o.summary()});
+		if let Some(err) = &o.internal_error
+		{
+			out.fail(format!("internal error: {}", err.chars().take(60).collect::<String>()), detail);
+		}
+		else if expected.is_empty() && !o.ok
+		{
+			out.fail(format!("well-scoped body rejected: {:?}", o.codes.iter().collect::<BTreeSet<_>>()), detail);
+		}
+		else if !expected.is_empty() && o.ok
+		{
+			out.fail(format!("ill-scoped body accepted (expected {:?})", expected), detail);
+		}
+		else if scoping != expected
+		{
+			out.fail(format!("wrong scoping diagnostics: expected {:?} got {:?}", expected, scoping), detail);
+		}
+		if ctx.want_sample
+		{
+			out.sample = Some(json!({"source": src, "expected_codes": expected}));
+		}
+		out
+	}
+}
+
 /// structured generator aimed at the E482 region: goto(s) / declarations /
 /// label / uses in every relative order and nesting
 struct SkipPatterns;
@@ -1136,7 +1301,7 @@ impl Check for C05
 	}
 	fn rule(&self) -> String
 	{
-		"function bodies over {var declaration, use in a call, use in an if condition, read-modify-write, label, goto, if-goto, block, if-block, if-else-blocks}: (a) every body of <= 5 (quick) / <= 6 (thorough) nodes, nesting <= 3, 2 variable names and 1 label name (exhaustive); (b) random bodies (label structure repaired to be valid by construction) up to 30 nodes with 3 variable names, the parameter name, a constant name, an undeclared name, 2 labels, `goto return`, and a use in the return value; (c) structured skip patterns: goto(s), declarations, label and uses in every relative order and nesting. Every body is surrounded by one of three neighbourhoods chosen by its hash: nothing, two function heads whose parameters carry the body's variable names, or another function with variables and parameters of the same names (none of which is in scope). Bodies whose label structure is invalid are discarded (C04's subject) and counted. Oracle 1 (static): an independent positional model predicts the set {E402, E422, E482}; verdict and the scoping subset of Errors::codes() must equal it. Oracle 2 (dynamic, independent of oracle 1): every ACCEPTED body is interpreted for p=0 and p=1 by a scope-aware interpreter that fails if a variable is read whose declaration did not execute; a sample is also run with lli and compared on stdout. Non-trivial: a goto/label pair spanning a declaration, or a use nested >= 2 blocks deep; distinct by body.".into()
+		"function bodies over {var declaration, use in a call, use in an if condition, read-modify-write, label, goto, if-goto, block, if-block, if-else-blocks}: (a) every body of <= 5 (quick) / <= 6 (thorough) nodes, nesting <= 3, 2 variable names and 1 label name (exhaustive); (b) random bodies (label structure repaired to be valid by construction) up to 30 nodes with 3 variable names, the parameter name, a constant name, an undeclared name, 2 labels, `goto return`, and a use in the return value; (c) structured skip patterns: goto(s), declarations, label and uses in every relative order and nesting; (d) random bodies of a function without parameters in a module without constants (nothing in scope at the first statements), static oracle only. Random bodies also contain `var v: i32 = v + 1;` (the initialiser is analysed before the variable exists). Every body is surrounded by one of three neighbourhoods chosen by its hash: nothing, two function heads whose parameters carry the body's variable names, or another function with variables and parameters of the same names (none of which is in scope). Bodies whose label structure is invalid are discarded (C04's subject) and counted. Oracle 1 (static): an independent positional model predicts the set {E402, E422, E482}; verdict and the scoping subset of Errors::codes() must equal it. Oracle 2 (dynamic, independent of oracle 1): every ACCEPTED body is interpreted for p=0 and p=1 by a scope-aware interpreter that fails if a variable is read whose declaration did not execute; a sample is also run with lli and compared on stdout. Non-trivial: a goto/label pair spanning a declaration, or a use nested >= 2 blocks deep; distinct by body.".into()
 	}
 	fn assumptions(&self) -> Vec<String>
 	{
@@ -1148,6 +1313,6 @@ impl Check for C05
 	}
 	fn streams(&self) -> Vec<Box<dyn Stream>>
 	{
-		vec![Box::new(Exhaustive), Box::new(RandomBodies), Box::new(SkipPatterns)]
+		vec![Box::new(Exhaustive), Box::new(RandomBodies), Box::new(SkipPatterns), Box::new(BareFunctions)]
 	}
 }
